@@ -251,6 +251,23 @@ def nextToken (s : List Byte) : Token × Nat :=
 /-- `Token.Pos` relative to the unread input -/
 def tokenStart (s : List Byte) : Nat := junkLen s
 
+/-! ### positions in the whole input (`readChar`'s line / column bookkeeping, `readPreviousIdentifier`)
+
+The Go lexer keeps `line`/`column` up to date in `readChar`: reading a `\n` bumps the line and resets the
+column to 0, any other byte (the 0 standing for the end of input included) bumps the column.  Both are
+therefore functions of the input and the position `p` of the current byte (`p ≤ input.length`). -/
+
+/-- `Token.Line` of a token starting at `p` -/
+def lineAt (input : List Byte) (p : Nat) : Nat := 1 + ((input.take (p + 1)).filter (· == 10)).length
+
+/-- `Token.Column` of a token starting at `p` -/
+def colAt (input : List Byte) (p : Nat) : Nat :=
+  (((input ++ [0]).take (p + 1)).reverse.takeWhile (· != 10)).length
+
+/-- `readPreviousIdentifier` when the lexer's position is `p`: the letters that end right before `p` -/
+def prevIdent (input : List Byte) (p : Nat) : List Byte :=
+  ((input.take p).reverse.takeWhile isLetter).reverse
+
 /-- the token stream: `NextToken` until `TokenEOF` (inclusive).  First argument: bytes of
 the current token still to walk over. -/
 def lexAux : Nat → List Byte → List Token
